@@ -570,6 +570,86 @@ fn cli_args(seed: u64, n_generated: usize) -> Vec<Vec<u8>> {
     out
 }
 
+/// The WASM entry point `new_game_from_fen` (compiled natively into the harness, see lib.rs)
+/// takes the same untrusted text. Its error path builds a `JsError`, which exists on wasm
+/// targets only, so only texts the parser accepts are sent through it: it must hand back a
+/// game without panicking, `get` must answer for all 64 squares, and a search on the game
+/// with a short limit must return.
+pub fn wasm_one(fen: &str) -> Result<bool, String> {
+    if fen.parse::<Board>().is_err() {
+        return Ok(false);
+    }
+    let r = guarded(|| {
+        let game = match crate::wasm_front::new_game_from_fen(fen) {
+            Ok(g) => g,
+            Err(_) => return Err(format!("C06 WASM entry point rejects `{fen}`, which the parser accepts")),
+        };
+        for f in 0..8u8 {
+            for r in 0..8u8 {
+                if game.get(f, r).is_err() {
+                    return Err(format!("C06 WASM ChessGame::get({f},{r}) fails on `{fen}`"));
+                }
+            }
+        }
+        let mut e = crate::wasm_front::new_engine();
+        match e.search(&game, Some("1ms".to_string())) {
+            Ok(m) => {
+                let _ = m.chess_move();
+                Ok(())
+            }
+            Err(_) => Err(format!("C06 WASM ChessEngine::search fails on `{fen}`")),
+        }
+    });
+    match r {
+        Ok(Ok(())) => Ok(true),
+        Ok(Err(d)) => Err(d),
+        Err(p) => Err(format!("C06 WASM entry point new_game_from_fen / search panics on the accepted text `{fen}`: {p}")),
+    }
+}
+
+fn wasm_stage(ctx: &WorkerCtx, st: &mut Stats) -> Result<(), Fail> {
+    let mut texts: Vec<String> = ROOTS.iter().map(|s| s.to_string()).collect();
+    texts.push(Board::standard().to_string());
+    texts.extend(material_extremes().iter().map(|p| p.fen()));
+    // clocks at their extremes on a few placements
+    for base in ["4k3/8/8/8/8/8/8/4K2R w K -", "r3k2r/8/8/8/8/8/8/R3K2R b KQkq -", "8/8/8/3pP3/8/8/8/K6k w - d6"] {
+        for (h, f) in [(0u32, 0u32), (0, 1), (99, 0), (100, 9999), (9999, 9999), (0, 9999)] {
+            let h = if base.ends_with("d6") { 0 } else { h };
+            texts.push(format!("{base} {h} {f}"));
+        }
+    }
+    let mut g = Expand(ctx.wseed(606));
+    for _ in 0..ctx.tier.pick(60, 600) {
+        let i = g.below(ROOTS.len() as u64) as usize;
+        if let Some(mut p) = refchess::Pos::from_fen(ROOTS[i]) {
+            for _ in 0..g.below(12) {
+                let l = p.legal();
+                if l.is_empty() {
+                    break;
+                }
+                p = p.apply(l[g.below(l.len() as u64) as usize]);
+            }
+            if g.below(3) == 0 {
+                p.full = [0u32, 1, 9999][g.below(3) as usize];
+            }
+            texts.push(p.fen());
+        }
+    }
+    for t in texts {
+        let case = json!({"wasm_fen": t});
+        ctx.about_to_run(&case);
+        match wasm_one(&t) {
+            Ok(true) => {
+                st.eval(1);
+                st.class("WASM entry point: accepted text gives a game, 64 square reads and a 1 ms search");
+            }
+            Ok(false) => st.class("WASM entry point: text not accepted by the parser (error path not runnable natively, skipped)"),
+            Err(d) => return Err(Fail { case, detail: d }),
+        }
+    }
+    Ok(())
+}
+
 fn cli_stage(ctx: &WorkerCtx, st: &mut Stats) -> Result<(), Fail> {
     let bin = std::env::var("VERIF_CHESS_CLI").unwrap_or_else(|_| "/verif/target/release/chess-cli".to_string());
     if !std::path::Path::new(&bin).exists() {
@@ -615,10 +695,17 @@ fn worker(ctx: &WorkerCtx) -> Result<(), Fail> {
         let mut st = ctx.stats.borrow_mut();
         cli_stage(ctx, &mut st)?;
     }
+    if ctx.idx == 2 % ctx.n {
+        let mut st = ctx.stats.borrow_mut();
+        wasm_stage(ctx, &mut st)?;
+    }
     run_proptest(ctx, 6, ctx.share(ctx.tier.pick(1_500_000, 30_000_000)), strategy(), |c| serde_json::to_value(c).unwrap(), run_case)
 }
 
 fn replay(v: &Value) -> Result<(), String> {
+    if let Some(t) = v.get("wasm_fen").and_then(|x| x.as_str()) {
+        return wasm_one(t).map(|_| ());
+    }
     if let Some(b) = v.get("cli_arg") {
         let bytes: Vec<u8> = b.as_array().ok_or("bytes")?.iter().map(|x| x.as_u64().unwrap_or(0) as u8).collect();
         let bin = std::env::var("VERIF_CHESS_CLI").unwrap_or_else(|_| "/verif/target/release/chess-cli".to_string());
